@@ -28,8 +28,9 @@ import CalVerif.Model.Xlsb
     Text: xls/xlsb strings are lists of Unicode scalar values (`Text = List Nat`), xlsx/ods strings are
     `String`s (attribute values and character data as quick-xml hands them over, i.e. unescaped).
     Code page: 1200 only (a CODEPAGE record with another value is outside the model: `err "unmodelled:codepage"`).
-    BOM sniffing of `encoding_rs::Encoding::decode` on the first unit of a string (U+FEFF dropped, U+FFFE / EF BB BF
-    switch decoder) is not modelled; see findings. -/
+    Strings are decoded without BOM sniffing, as the code does since d1e0258 (`XlsEncoding::decode_to`) and the
+    `decode_without_bom_handling` in xlsb `wide_str`; the one place that still sniffs is the relationship id of
+    BrtBundleSh (`UTF_16LE.decode(relid)`), where the model assumes ids that do not start with U+FEFF / U+FFFE. -/
 
 namespace Meta
 
@@ -641,13 +642,13 @@ def namedAttrs : List (String × String) → String × String → String × Stri
 def isNamedElem (n : String) : Bool := n = "table:named-range" || n = "table:named-expression"
 
 /-- `parse_content`, `read_table` (as a skip) and `read_named_expressions` as one pass over the events.
-    The end of the list is `Eof`: normal end at top level, `Mismatch` inside `read_named_expressions`; inside
-    `read_table` the code never leaves its loop (`outOfFuel`). -/
+    The end of the list is `Eof`: normal end at top level, `Mismatch` inside `read_named_expressions`,
+    `Eof("table:table")` inside `read_table` (after d6b5c9c; the pinned snapshot never left that loop). -/
 def odsLoop : List Ev → OdsSt → Res OdsSt
   | [], st =>
     match st.mode with
     | .top => .ok st
-    | .table => .outOfFuel
+    | .table => .err "Eof:table:table"
     | .named _ => .err "Mismatch:table:named-expressions"
   | ev :: rest, st =>
     match st.mode with
